@@ -879,6 +879,9 @@ func firstBlockedFrame(stderr string) string {
 }
 
 func child(c *vf.Ctx) {
+	if concChild(c) {
+		return
+	}
 	switch c.Child {
 	case "selfpush":
 		kind := c.ChildArgs[0]
@@ -925,6 +928,10 @@ func child(c *vf.Ctx) {
 }
 
 func replay(c *vf.Ctx) {
+	if cs, ok := isConcReplay(c); ok {
+		concReplay(c, cs)
+		return
+	}
 	var r caseRec
 	if err := c.LoadReplay(&r); err != nil {
 		c.Inconclusive("cannot load replay: " + err.Error())
@@ -963,6 +970,7 @@ func run(c *vf.Ctx) {
 	c.SetRule("a case is one operation sequence applied in lock-step to a ds.List and a container/list.List (plus a foreign list pair) with a full comparison after every step; " +
 		"exhaustive part: every sequence up to length 5 (quick) / 6 (thorough) over an alphabet of 44 operations whose handle arguments range over the first 3 pooled handles (live, removed and foreign ones arise from the sequence itself), both flavours; " +
 		"random part: seeded sequences of length 40 over the whole handle pool incl. handles created by whole-list pushes; evaluations counts sequences whose last step was checked (exhaustive) resp. checked steps (random); " +
+		"concurrent part (thread-safe flavour): seeded programs of 3-6 goroutines x 4-10 calls over all 20 exported methods with unique values, recorded at the client boundary and decided by porcupine against a slice model with container/list semantics, plus window scenarios (iteration callback parked while other goroutines call), a 20 000-value whole-list push against a poller and a marker insert, the same workload without the recording clock in a -race child, and a quiescent structural check after every history; " +
 		"distinct_nontrivial counts distinct (flavour, sequence of operation x argument-class) signatures, e.g. PushBack>PushBack>MoveBefore(live,live)>Remove(live), of sequences (exhaustive ones up to length 5, and the random ones) that agreed with the reference and contain at least one handle-taking, whole-list or Init operation (handle numbering is abstracted away); distinct_op_argclass counts operation x argument-class (live/removed/foreign/stale = predates an Init/same/self/other) combinations")
 	maxLen := c.Pick(5, 6)
 	t0 := time.Now()
@@ -987,8 +995,13 @@ func run(c *vf.Ctx) {
 	})
 	c.Extra("phase_s_exhaustive_plus_random", int(time.Since(t0).Seconds()))
 	// self pushes on the thread-safe flavour: own child each, verdict = runtime dead-lock detector
+	// concurrent histories on the thread-safe flavour (conc.go): own children, started next to the two single-threaded
+	// self-push children
+	concDone := make(chan struct{})
+	go func() { defer close(concDone); runConc(c) }()
 	runSelfPushChild(c, kPBL)
 	runSelfPushChild(c, kPFL)
+	<-concDone
 	c.Extra("phase_s_all", int(time.Since(t0).Seconds()))
 
 	c.SetExhaustive(false)
